@@ -48,6 +48,12 @@ Print Assumptions C10_cw_placements_named.
 Theorem C10_cw_returns_partial : forall wd ls inv st, world_wf wd -> bs_pos wd -> Inv_st wd st -> cw_schedule wd ls inv st <> Err 99.
 Proof. exact cw_schedule_terminates. Qed.
 Print Assumptions C10_cw_returns_partial.
+(* ... and it cannot be proved: the statement "schedule() returns normally" is refuted by a witness that satisfies every
+   hypothesis (finding F-cw1, reproduced on the real scheduler by the check) *)
+Theorem C10_cw_returns_refuted :
+  world_wf rf_wd /\ bs_pos rf_wd /\ Inv_st rf_wd (cw_start rf_wd [1]) /\ cw_schedule rf_wd false rf_inv (cw_start rf_wd [1]) = Err 2.
+Proof. exact returns_normally_refuted. Qed.
+Print Assumptions C10_cw_returns_refuted.
 Theorem C10_cw_example : world_wf ex_wd /\ bs_pos ex_wd /\ map t_id (run_placed (cw_run ex_wd false ex_invs (cw_start ex_wd [1]))) = [1; 2; 6; 4].
 Proof. exact (conj ex_world_wf (conj ex_bs_pos ex_placed)). Qed.
 Print Assumptions C10_cw_example.
